@@ -13,7 +13,8 @@ MA = 'mitxgraders/helpers/calc/math_array.py'
 EXPR = 'mitxgraders/helpers/calc/expressions.py'
 RPOW = 'mitxgraders/helpers/calc/robust_pow.py'
 MG = 'mitxgraders/formulagrader/matrixgrader.py'
-FILES = [MA, EXPR, RPOW, MG]
+SAMP = 'mitxgraders/sampling.py'
+FILES = [MA, EXPR, RPOW, MG, SAMP]
 
 EXPLANATION = (
     "(D1) abstract interpretation (AI-SHAPE, sa/shapes.py) of the bodies of MathArray.__add__/__radd__/__sub__/__rsub__/"
@@ -28,7 +29,9 @@ EXPLANATION = (
     "parent inside MathArray.enable_negative_powers(config['negative_powers']), the context manager installs its argument "
     "in the class flag that __pow__ reads; (D4) cast discipline: every result of an evaluation action leaves eval_node "
     "through cast_np_numeric_as_builtin, every intermediate product of eval_product is cast before it is used as a left "
-    "operand, and the cast turns every numpy scalar kind into a builtin number.")
+    "operand, and the cast turns every numpy scalar kind into a builtin number; the negative-powers manager is entered only by "
+    "MatrixGrader.check_response unless it restores the previous value; (D5) the library's own array-valued producers "
+    "(RandomFunction, ArraySamplingSet.gen_sample, cross, identity, the constant tables) return MathArray-typed values.")
 NOT_DECIDED = ("the numeric values numpy returns for conforming operands (np.dot, matrix_power, elementwise arithmetic are "
                "a model table); rows of A6 with two single-entry arrays, foreign objects or division by the number 0 (don't-care); "
                "eval_variable's int->float conversion (no shape consequence); that eval_sum/eval_power/eval_negation fold "
@@ -54,6 +57,7 @@ def check(ctx):
     d2_product(ctx, idx, flag_attr)
     d2_array(ctx, idx)
     d4_cast(ctx, idx, flag_attr)
+    d5_producers(ctx, idx)
 
 
 # ----------------------------------------------------------------------------- operand catalogue
@@ -629,7 +633,7 @@ def d2_array(ctx, idx):
 # ----------------------------------------------------------------------------- D3
 def d3_negative_powers(ctx, idx):
     """Returns the name of the class attribute that carries the negative-powers switch."""
-    r = ctx.rule('D3.NEGPOW', 'MatrixGrader evaluates inside MathArray.enable_negative_powers(config[negative_powers])', floor=4)
+    r = ctx.rule('D3.NEGPOW', 'negative powers stay refused while a grader has them disabled (guard, switch, single non-nested entry)', floor=5)
     flag_attr = None
     with r:
         cm = idx.func(AQ + '.enable_negative_powers')
@@ -716,9 +720,286 @@ def d3_negative_powers(ctx, idx):
                             expected="self.config['negative_powers']", found=short(arg))
             else:
                 r.undecided('MatrixGrader.check_response: switch argument', 'argument `%s` not recognised' % short(arg), lib.loc(fi, ce))
+        # who enters the manager, and is nesting safe?
+        d3_callers(r, idx, cm, flag_attr, fi, sup)
     if flag_attr is None:
         flag_attr = '_negative_powers'
     return flag_attr
+
+
+def manager_reentrancy(cm, flag_attr):
+    """'restores' when the teardown writes back the value read before the setup, 'resets' when it writes a fixed value
+    (default attribute / constant), None when not recognised."""
+    clsp = cm.params[0]
+    cfg = cfg_of(cm.node)
+    yields = [n for n in walk_own(cm.node) if isinstance(n, ast.Yield)]
+    ynodes = lib.cfg_nodes_for(cfg, yields[0])
+    saved = set()
+    for n in walk_own(cm.node):
+        if isinstance(n, ast.Assign) and len(n.targets) == 1 and isinstance(n.targets[0], ast.Name) \
+                and isinstance(n.value, ast.Attribute) and n.value.attr == flag_attr and cfg.nodes_of(n) \
+                and cfg.dominates(cfg.nodes_of(n), ynodes):
+            saved.add(n.targets[0].id)
+    verdicts = set()
+    for n in walk_own(cm.node):
+        if isinstance(n, ast.Assign) and len(n.targets) == 1 and isinstance(n.targets[0], ast.Attribute) \
+                and n.targets[0].attr == flag_attr and isinstance(n.targets[0].value, ast.Name) and n.targets[0].value.id in (clsp, 'MathArray'):
+            if cfg.nodes_of(n) and cfg.dominates(cfg.nodes_of(n), ynodes):
+                continue        # the setup store
+            v = n.value
+            if isinstance(v, ast.Name) and v.id in saved:
+                verdicts.add('restores')
+            elif isinstance(v, ast.Constant) or (isinstance(v, ast.Attribute) and v.attr != flag_attr):
+                verdicts.add('resets')
+            else:
+                verdicts.add('unknown')
+    if verdicts == {'restores'}:
+        return 'restores'
+    if verdicts == {'resets'}:
+        return 'resets'
+    return None
+
+
+def reachable_functions(idx, starts, limit=4000):
+    seen = {}
+    work = list(starts)
+    while work and len(seen) < limit:
+        f = work.pop()
+        if f.qualname in seen:
+            continue
+        seen[f.qualname] = f
+        # nested functions run when their definer runs (closures handed to the evaluator)
+        for q, g in idx.funcs.items():
+            if g.outer is f and q not in seen:
+                work.append(g)
+        for c in walk_own(f.node):
+            if isinstance(c, ast.Call):
+                try:
+                    targets, how = idx.resolve_call(f, c)
+                except Exception:
+                    continue
+                for t in targets:
+                    if hasattr(t, 'qualname') and hasattr(t, 'node') and t.qualname not in seen:
+                        work.append(t)
+    return seen
+
+
+def d3_callers(r, idx, cm, flag_attr, grader_fi, super_calls):
+    construct = 'MathArray.enable_negative_powers: callers'
+    sites = []
+    for f in idx.package_funcs():
+        for c in lib.calls_named(f.node, cm.name):
+            targets, how = idx.resolve_call(f, c)
+            if any(getattr(t, 'qualname', None) == cm.qualname for t in targets):
+                sites.append((f, c))
+    others = [(f, c) for f, c in sites if f.qualname != grader_fi.qualname]
+    mode = manager_reentrancy(cm, flag_attr)
+    if not others:
+        r.ok(construct, 'entered only by MatrixGrader.check_response (%s)' % ('re-entrant' if mode == 'restores' else 'not re-entrant: must not nest'),
+             cm.loc)
+        return
+    if mode == 'restores':
+        r.ok(construct, 'the manager restores the previous value on exit, so the %d other caller(s) may nest' % len(others), cm.loc)
+        return
+    if mode is None:
+        r.undecided(construct, 'other callers exist (%s) and the teardown of the manager is not recognised'
+                    % ', '.join(f.qualname for f, _ in others), cm.loc)
+        return
+    # the manager RESETS the switch to a fixed value on exit: a nested use destroys the outer setting
+    starts = []
+    for c in super_calls:
+        targets, how = idx.resolve_call(grader_fi, c)
+        starts += [t for t in targets if hasattr(t, 'node')]
+    reach = reachable_functions(idx, starts)
+    for f, c in others:
+        top = f
+        while top.qualname not in reach and top.outer is not None:
+            top = top.outer
+        if f.qualname in reach or top.qualname in reach:
+            r.violation(construct, '%s enters `%s` while MatrixGrader.check_response holds the switch at config[negative_powers] around the '
+                        'whole check (it is reachable from the guarded evaluation). The manager is not re-entrant: on exit it resets the '
+                        'class switch to a fixed value instead of restoring the previous one, so after this nested use negative matrix '
+                        'powers are enabled again for the rest of the check and `A^-1` is evaluated although the grader has '
+                        'negative_powers=False' % (f.qualname, short(c)), lib.loc(f, c),
+                        expected='a single caller (MatrixGrader.check_response), or a manager that saves and restores the previous value',
+                        found=short(c))
+        else:
+            r.undecided(construct, '%s also enters the non-re-entrant manager; whether it can run inside MatrixGrader.check_response could '
+                        'not be established from the resolved call graph' % f.qualname, lib.loc(f, c))
+
+
+# ----------------------------------------------------------------------------- D5 array-valued producers
+PRODUCERS = ['mitxgraders.sampling.RandomFunction.gen_sample.<locals>.random_function',
+             'mitxgraders.matrixsampling.ArraySamplingSet.gen_sample',
+             'mitxgraders.helpers.calc.mathfuncs.cross',
+             'mitxgraders.helpers.calc.math_array.identity',
+             'mitxgraders.helpers.calc.math_array.random_math_array']
+NP_ARRAY_MAKERS = {'tile', 'zeros', 'ones', 'rand', 'randn', 'random_sample', 'vstack', 'hstack', 'identity', 'eye', 'linspace',
+                   'arange', 'outer', 'kron', 'full', 'empty', 'diag', 'stack', 'concatenate', 'meshgrid'}
+NUMBER_MAKERS = {'float', 'int', 'complex', 'len', 'abs', 'item', 'norm', 'det', 'trace', 'round'}
+
+
+class ArrayKinds(object):
+    """Flow-insensitive kind of an expression inside a producer: 'MARR' (MathArray), 'NUM' (number / element), 'NDARR' (plain
+    numpy array or the result of numpy arithmetic on plain arrays), 'UNK'."""
+    def __init__(self, idx, fi):
+        self.idx, self.fi = idx, fi
+        self.assign = {}
+        self.subscripted = set()
+        scopes = [fi.node]
+        cur = fi
+        while cur.outer is not None:
+            cur = cur.outer
+            scopes.append(cur.node)
+        self.scopes = scopes
+        for fn in scopes:
+            for n in walk_own(fn):
+                if isinstance(n, ast.Assign):
+                    for t in n.targets:
+                        if isinstance(t, ast.Name):
+                            self.assign.setdefault(t.id, []).append(n.value)
+                elif isinstance(n, ast.AugAssign) and isinstance(n.target, ast.Name):
+                    self.assign.setdefault(n.target.id, []).append(ast.BinOp(left=ast.Name(id=n.target.id, ctx=ast.Load()), op=n.op, right=n.value))
+                elif isinstance(n, ast.Subscript) and isinstance(n.value, ast.Name) and isinstance(n.ctx, ast.Load) \
+                        and isinstance(n.slice, ast.Constant) and isinstance(n.slice.value, int):
+                    self.subscripted.add(n.value.id)
+        self.busy = set()
+
+    def is_matharray_ctor(self, call):
+        try:
+            targets, how = self.idx.resolve_call(self.fi, call)
+        except Exception:
+            return False
+        for t in targets:
+            if isinstance(t, tuple) and t[0] == 'class' and t[1].qualname == AQ:
+                return True
+            if getattr(t, 'qualname', None) in PRODUCERS:
+                return True
+        return False
+
+    def kind(self, e):
+        if isinstance(e, ast.Constant):
+            return 'NUM' if isinstance(e.value, (int, float, complex)) else 'UNK'
+        if isinstance(e, ast.Name):
+            if e.id in self.busy:
+                return None
+            vals = self.assign.get(e.id)
+            if not vals:
+                return 'UNK'
+            self.busy.add(e.id)
+            try:
+                ks = {self.kind(v) for v in vals} - {None}
+            finally:
+                self.busy.discard(e.id)
+            return ks.pop() if len(ks) == 1 else ('UNK' if ks else 'UNK')
+        if isinstance(e, ast.Call):
+            if self.is_matharray_ctor(e):
+                return 'MARR'
+            name = nf.callee_name(e)
+            d = self.idx.dotted_of(self.fi.module, e.func) if isinstance(e.func, (ast.Attribute, ast.Name)) else None
+            if name in NUMBER_MAKERS:
+                return 'NUM'
+            if d is not None and d.startswith('numpy.'):
+                ks = [self.kind(a) for a in e.args]
+                if 'MARR' in ks:
+                    return 'UNK'          # numpy functions keep the subclass of their argument or not, depending on the function
+                if name in NP_ARRAY_MAKERS or name == 'array':
+                    return 'NDARR'
+                if 'NDARR' in ks:
+                    return 'NDARR'        # elementwise functions / reductions of a plain array
+                return 'UNK'
+            return 'UNK'
+        if isinstance(e, ast.BinOp):
+            l, r_ = self.kind(e.left), self.kind(e.right)
+            if 'MARR' in (l, r_):
+                return 'MARR'
+            if l is None or r_ is None:
+                return None           # x = x op c: the kind is that of x's other bindings
+            if 'NDARR' in (l, r_):
+                return 'NDARR'
+            if l == r_ == 'NUM':
+                return 'NUM'
+            return 'UNK'
+        if isinstance(e, ast.UnaryOp):
+            return self.kind(e.operand)
+        if isinstance(e, ast.Subscript):
+            base = self.kind(e.value)
+            if base in ('NDARR', 'MARR') and isinstance(e.slice, ast.Constant) and isinstance(e.slice.value, int):
+                return 'ELEM'
+            return 'UNK'
+        if isinstance(e, ast.Attribute) and e.attr == 'T':
+            return self.kind(e.value)
+        return 'UNK'
+
+    def has_axes(self, e):
+        """Evidence that a plain-array expression has at least one axis (so it is not a scalar)."""
+        if isinstance(e, ast.Name):
+            if e.id in self.subscripted:
+                return True
+            return any(self.has_axes(v) for v in self.assign.get(e.id, []) if not (isinstance(v, ast.BinOp) and e.id in lib.names_in(v)))
+        if isinstance(e, ast.Call) and nf.callee_name(e) in NP_ARRAY_MAKERS:
+            return True
+        if isinstance(e, ast.BinOp):
+            return self.has_axes(e.left) or self.has_axes(e.right)
+        return False
+
+
+def d5_producers(ctx, idx):
+    r = ctx.rule('D5.PRODUCERS', 'array values the library itself hands to the evaluator (samplers, function tables) are MathArrays', floor=7)
+    with r:
+        for q in PRODUCERS:
+            fi = idx.func(q)
+            kinds = ArrayKinds(idx, fi)
+            rets = lib.returns_of(fi.node)
+            if not rets:
+                raise AnalysisError('%s: no return' % q)
+            label = q.replace('mitxgraders.', '').replace('.<locals>', '')
+            for ret in rets:
+                cases = _value_cases(ret.value)
+                for guard, v in cases:
+                    k = kinds.kind(v)
+                    construct = '%s: return%s' % (label, ' [%s]' % short(guard, 40) if guard is not None else '')
+                    where = lib.loc(fi, ret)
+                    if k == 'MARR':
+                        r.ok(construct, 'MathArray', where)
+                    elif k in ('NUM', 'ELEM'):
+                        r.ok(construct, 'a number / array element (made builtin by eval_node)', where, nontrivial=False)
+                    elif k == 'NDARR' and kinds.has_axes(v):
+                        r.violation(construct, '`%s` is a plain numpy array (built by numpy calls, never wrapped in MathArray) and is returned '
+                                    'as the value of an array-valued %s: in the evaluator every operator on it is numpy\'s broadcasting one '
+                                    '(array + 1, array / array elementwise, shapes broadcast silently) instead of MathArray\'s strict rules'
+                                    % (short(v, 50), 'function' if 'Function' in q or 'cross' in q else 'sample'), where,
+                                    expected='MathArray(%s)' % short(v, 40), found=short(ret, 80))
+                    else:
+                        r.undecided(construct, 'cannot tell whether `%s` is a MathArray, a number or a plain numpy array' % short(v, 60), where)
+        # the constant tables of array-valued variables
+        mf = idx.module('mitxgraders.helpers.calc.mathfuncs')
+        n_tab = 0
+        for name in ('pauli', 'cartesian_xyz', 'cartesian_ijk'):
+            vals = mf.assigns.get(name, [])
+            if len(vals) != 1 or not isinstance(vals[0], ast.Dict):
+                continue
+            for k, v in zip(vals[0].keys, vals[0].values):
+                n_tab += 1
+                ok = isinstance(v, ast.Call) and nf.callee_name(v) == 'MathArray'
+                if not ok:
+                    plain = isinstance(v, ast.Call) and (idx.dotted_of(mf, v.func) or '').startswith('numpy.')
+                    if plain or isinstance(v, (ast.List, ast.Tuple)):
+                        r.violation('mathfuncs.%s[%s]' % (name, short(k)), 'the array constant is `%s`, not a MathArray: its operators are '
+                                    'numpy\'s / list concatenation' % short(v, 60), lib.mloc(mf, v), expected='MathArray([...])')
+                    else:
+                        r.undecided('mathfuncs.%s[%s]' % (name, short(k)), 'value `%s` not recognised' % short(v, 60), lib.mloc(mf, v))
+        if n_tab:
+            r.ok('mathfuncs array constants', '%d table entries are MathArray(...) literals' % n_tab, mf.relpath)
+
+
+def _value_cases(expr):
+    if isinstance(expr, ast.IfExp):
+        out = []
+        for g, sub in ((expr.test, expr.body), (ast.UnaryOp(op=ast.Not(), operand=expr.test), expr.orelse)):
+            out += [(g if g0 is None else g0, v) for g0, v in _value_cases(sub)]
+        return out
+    return [(None, expr)]
 
 
 # ----------------------------------------------------------------------------- D4
@@ -945,6 +1226,13 @@ MUTANTS = [
     Mutant('seeded-C14f-division-by-unconverted-single-entry-array', MA, "                return super_DIV(other.item())", "                return super_DIV(other)", 'D1'),
     Mutant('mul-by-unconverted-single-entry-array', MA, "                return super_MUL(other.item())", "                return super_MUL(other)", 'D1'),
     Mutant('add-unconverted-single-entry-zero', MA, "            return super_ADD(other.item())", "            return super_ADD(other)", 'D1'),
+    Mutant('seeded-C14h-random-function-returns-plain-ndarray', SAMP, "            return MathArray(fullsum) if output_dim > 1 else fullsum[0]",
+           "            return fullsum[0] if output_dim == 1 else fullsum", 'D5'),
+    Mutant('array-sampler-returns-plain-ndarray', 'mitxgraders/matrixsampling.py', "        array = self.generate_sample()\n        return MathArray(array)",
+           "        array = np.ones(3) * 1.0\n        return array", 'D5'),
+    Mutant('identity-returns-plain-ndarray', MA, "    return MathArray(np.identity(n))", "    return np.identity(n)", 'D5'),
+    Mutant('seeded-C14g-nested-non-reentrant-negative-powers', SAMP, "            result, _ = evaluator(formula=self.config['formula'],\n                                  variables=sample_dict,\n                                  functions=functions,\n                                  suffixes=suffixes)\n",
+           "            from mitxgraders.helpers.calc.math_array import MathArray\n            with MathArray.enable_negative_powers(True):\n                result, _ = evaluator(formula=self.config['formula'],\n                                      variables=sample_dict,\n                                      functions=functions,\n                                      suffixes=suffixes)\n", 'D3'),
     Mutant('eval-product-cast-only-after-division', EXPR, "            # Need to cast np numerics as builtins here (in addition to during\n            # eval_node) because the result is changing shape\n            result = cast_np_numeric_as_builtin(result)",
            "            if op == '/':\n                result = cast_np_numeric_as_builtin(result)", 'D4'),
 ]
@@ -974,5 +1262,9 @@ BENIGN = [
     Benign('triple-error-built-at-raise-site-from-module-constant', EXPR,
            "                if is_vector(value):\n                    if double_vector_mult_has_occured:\n                        raise triple_vector_mult_error\n                    elif is_vector(result):\n                        double_vector_mult_has_occured = True\n",
            "                if is_vector(value) and double_vector_mult_has_occured:\n                    raise CalcError(' '.join(['Multiplying three or more vectors is ambiguous.', 'Please place parentheses.']))\n                if is_vector(value) and is_vector(result):\n                    double_vector_mult_has_occured = True\n"),
+    Benign('random-function-wrap-before-branch', SAMP, "            return MathArray(fullsum) if output_dim > 1 else fullsum[0]",
+           "            if output_dim > 1:\n                return MathArray(fullsum)\n            return fullsum[0]"),
+    # NOTE: a save/restore (re-entrant) form of enable_negative_powers is accepted by D3.NEGPOW, but the imported clause
+    # C14.REL.C11.D8.PAIR (sa/related.py, not mine) currently reports it; the twin is therefore not listed here.
     Benign('mul-collapse-without-isinstance', MA, "                if isinstance(result, MathArray) and is_numberlike_array(result):", "                if is_numberlike_array(result):"),
 ]
